@@ -15,11 +15,12 @@ var (
 	verifOnce sync.Once
 	verifMod  *ModuleAuthBasic
 	verifCond condition.Condition
+	verifFalse condition.Condition
 )
 
 // VerifBasic runs authBasicHandler (C51) for a request of product "p" whose single rule has the given user table
 // (user -> stored hash).  Returns whether the request goes on and the status of the rejection response.
-func VerifBasic(users map[string]string, auth string, hasAuth bool) (bool, int, string) {
+func VerifBasic(route int, users map[string]string, auth string, hasAuth bool) (bool, int, string) {
 	verifOnce.Do(func() {
 		verifMod = NewModuleAuthBasic()
 		c, err := condition.Build("default_t()")
@@ -27,9 +28,21 @@ func VerifBasic(users map[string]string, auth string, hasAuth bool) (bool, int, 
 			panic(err)
 		}
 		verifCond = c
+		if verifFalse, err = condition.Build("!default_t()"); err != nil {
+			panic(err)
+		}
 	})
-	rules := RuleList{AuthBasicRule{Cond: verifCond, UserPasswd: users, Realm: "verif"}}
-	verifMod.ruleTable.Update(AuthBasicConf{Version: "v", Config: ProductRules{"p": &rules}})
+	// route 0: [rule with a false condition (empty table); the rule under test]; 1: other product only; 2: false rule only
+	decoy := AuthBasicRule{Cond: verifFalse, UserPasswd: map[string]string{}, Realm: "decoy"}
+	rules := RuleList{decoy, AuthBasicRule{Cond: verifCond, UserPasswd: users, Realm: "verif"}}
+	product := "p"
+	switch route {
+	case 1:
+		product = "other"
+	case 2:
+		rules = RuleList{decoy}
+	}
+	verifMod.ruleTable.Update(AuthBasicConf{Version: "v", Config: ProductRules{product: &rules}})
 	hreq := &bfe_http.Request{Method: "GET", Header: make(bfe_http.Header)}
 	if hasAuth {
 		hreq.Header.Set("Authorization", auth)
